@@ -230,6 +230,8 @@ def _case(cls, container="da2", nan="none", attr="plain", where="data", pv="defa
         where = "data"
     if cplx and cls not in zoo.COMPLEX_INPUT_OK:
         cplx = False
+    if container == "list12":
+        lazy = "eager"  # 12 (x2) lazily chained items through six round trips exceed the per-case budget; the codec is the same
     return dict(cls=cls, container=container, nan=nan, attr=attr, where=where, pv=pv, lazy=lazy, hist=hist,
                 name=name, cplx=bool(cplx), dseed=int(dseed), base_i=int(base_i), extra=extra,
                 weights=weights if container in ("da1", "da2", "da2s", "dataset", "list", "list_ds") else "none")
